@@ -144,10 +144,114 @@ def run_property(prop: str, tier: str) -> int:
         print(f"UNDECIDED property={prop} obligation={ob.key} ({ob.status}: {(ob.reason or '')[:200]})")
     if undecided and rc == 0:
         rc = 2
+    if tier == "thorough":
+        extra_rc = thorough_extras(prop, obs, meta)
+        rc = rc or extra_rc
     write_evidence(prop, tier, seed, obs, meta, known_hits, violations, undecided, time.time() - t0, mod)
     n_ok = sum(1 for o in obs if o.status == PROVED)
     print(f"{prop} [{tier}]: {len(obs)} obligations, {n_ok} proved, {len(known_hits)} refuted (known findings), "
           f"{len(violations)} refuted (new), {len(undecided)} undecided, {time.time() - t0:.1f}s")
+    return rc
+
+
+def thorough_extras(prop, obs, meta) -> int:
+    """thorough tier only:
+    (1) every distinct witness search attached to a PROVED obligation is run on the real code (bounded differential
+        cross-check of the verifier: a failing input for a discharged obligation is reported as a violation with that
+        input - it is a real failing input of the property - and points at an unsound contract or engine);
+    (2) the Lean lemmas the property's argument uses are re-checked;
+    (3) mutation self-test: each seeded change recorded under seeded/<prop>-* is applied to a scratch copy of the
+        current tree and the quick check must report a violation there (recorded in the evidence, not a verdict)."""
+    import glob
+    import shutil
+    import tempfile
+    rc = 0
+    extra = meta.setdefault("coverage_extra", {})
+    # (1)
+    calls, owner = [], {}
+    for ob in obs:
+        if isinstance(ob, tuple) or ob.status != PROVED or not ob.witness or ob.witness.get("family") != "call":
+            continue
+        key = (ob.witness["oracle"], json.dumps(ob.witness.get("args", []), sort_keys=True, default=str))
+        if key not in owner:
+            owner[key] = ob
+            calls.append([ob.witness["oracle"], ob.witness.get("args", [])])
+    calls = calls[:400]
+    found = []
+    if calls:
+        try:
+            pr = subprocess.run([REPLAY_PY, os.path.join(VERIF, "replaylib", "batch.py")], input=json.dumps(calls),
+                                capture_output=True, text=True, timeout=3000,
+                                env=dict(os.environ, PYTHONDONTWRITEBYTECODE="1"))
+            res = json.loads(pr.stdout)
+        except Exception as e:
+            res = []
+            extra["crosscheck_error"] = repr(e)
+        known = load_known()
+        for (name, args), w in zip(calls, res):
+            if w:
+                ob = owner[(name, json.dumps(args, sort_keys=True, default=str))]
+                if match_known(ob, known) is not None:
+                    continue
+                # the same witness may belong to a listed finding of this property (shared oracle)
+                if any(k.get("property") == prop and k.get("oracle") == name for k in known.get("open", [])):
+                    continue
+                found.append((ob, w))
+    extra["crosscheck_witness_searches"] = len(calls)
+    extra["crosscheck_failing_inputs"] = len(found)
+    for ob, w in found[:10]:
+        path, reproduced, out = write_replay(prop, ob)
+        print(f"VIOLATION property={prop} replay={os.path.relpath(path, VERIF)}")
+        print(f"  cross-check: obligation {ob.key} was discharged but the witness search finds: {w[:300]}")
+        rc = 1
+    # (2)
+    lemmas = {"C01": ["Frame.lean"], "C15": ["Frame.lean"], "C05": ["EscSql.lean", "EscMysql.lean"]}.get(prop, [])
+    lean_res = {}
+    for f in lemmas:
+        try:
+            pr = subprocess.run(["lean", os.path.join(VERIF, "lemmas", f)], capture_output=True, text=True, timeout=900)
+            lean_res[f] = "ok" if pr.returncode == 0 and "error" not in (pr.stdout + pr.stderr) else \
+                (pr.stdout + pr.stderr)[-300:]
+        except Exception as e:
+            lean_res[f] = repr(e)
+    if lemmas:
+        extra["lean_lemmas"] = lean_res
+        for f, v in lean_res.items():
+            if v != "ok":
+                print(f"UNDECIDED property={prop} lemma {f}: {v}")
+                rc = rc or 2
+    # (3)
+    results = {}
+    repo_root = os.environ.get("PYVC_REPO", "/repo")
+    if "PYVC_OUT" not in os.environ:            # not inside a self-test already
+        for d in sorted(glob.glob(os.path.join(VERIF, "seeded", prop + "-*"))):
+            wt = tempfile.mkdtemp(prefix="pyvc_selftest_")
+            try:
+                shutil.rmtree(wt)
+                shutil.copytree(repo_root, wt, ignore=shutil.ignore_patterns(".git", "__pycache__", "*.pyc"))
+                ap = subprocess.run(["git", "apply", "--unsafe-paths", "--directory", wt, os.path.join(d, "patch.diff")],
+                                    cwd="/", capture_output=True, text=True)
+                if ap.returncode != 0:
+                    ap = subprocess.run(["patch", "-p1", "-s", "-i", os.path.join(d, "patch.diff")], cwd=wt,
+                                        capture_output=True, text=True)
+                if ap.returncode != 0:
+                    results[os.path.basename(d)] = "patch does not apply to the current tree"
+                    continue
+                pr = subprocess.run([sys.executable, "-m", "pyvc.main", prop, "--tier", "quick"], cwd=VERIF,
+                                    capture_output=True, text=True, timeout=3000,
+                                    env=dict(os.environ, PYVC_REPO=wt, PYVC_OUT=os.path.join(wt, ".pyvc_out"),
+                                             PYTHONPATH=f"{VERIF}:{wt}"))
+                nv = sum(1 for ln in pr.stdout.splitlines() if ln.startswith("VIOLATION"))
+                results[os.path.basename(d)] = f"exit {pr.returncode}, {nv} VIOLATION line(s)"
+            except Exception as e:
+                results[os.path.basename(d)] = f"self-test failed to run: {e!r}"
+            finally:
+                shutil.rmtree(wt, ignore_errors=True)
+        extra["mutation_selftest"] = results
+        missed = [k for k, v in results.items() if v.startswith("exit 0")]
+        print(f"{prop} [thorough]: cross-checked {len(calls)} witness searches ({len(found)} failing inputs), "
+              f"lemmas {lean_res or 'none'}, mutation self-test {results or 'no seeds'}"
+              f"{' MISSED: ' + str(missed) if missed else ''}")
     return rc
 
 
